@@ -494,6 +494,8 @@ class Interp:
                         elems.extend(a[1])
                     else:
                         elems.append(a)
+            if elems is None and self.cfg.lvalues and isinstance(rng, tuple) and rng and rng[0] in ("rec", "new"):
+                elems = _elems(rng)      # an array object whose elements are known
             while True:
                 if elems is not None:
                     if n >= len(elems):
@@ -1095,6 +1097,15 @@ class Interp:
         if short == "operator()" and recv is not None and not isinstance(recv, Closure) and not d.get("has_body"):
             return self.event("call", [recv] + args, loc, label="call")
         if qn in self.cfg.pure or any(qn.startswith(p) for p in self.cfg.pure_prefixes):
+            if self.cfg.lvalues and qn in ("fcppt::array::object::get_unsafe", "fcppt::array::object::operator[]") and recv is not None and len(args) == 1 \
+                    and is_const(args[0]) and isinstance(recv, tuple) and recv and recv[0] in ("rec", "new"):
+                el = _elems(recv)
+                try:
+                    i_ = int(str(args[0][1]).rstrip("uUlL"))
+                except (TypeError, ValueError):
+                    i_ = None
+                if el is not None and i_ is not None and 0 <= i_ < len(el):
+                    return el[i_]        # element of an array value that is known
             key = qn + ("<" + ",".join(d.get("targs", [])) + ">" if d.get("targs") else "")
             return ("app", key, tuple(([recv] if recv is not None else []) + args))
         if (qn in self.cfg.inline or any(qn.startswith(p) for p in self.cfg.inline_prefixes)) and qn not in self.cfg.opaque:
@@ -1297,6 +1308,11 @@ _re_iter_free = _re_mod.compile(r"^std::(__detail::)?operator(==|!=|\+|-)$")
 def _elems(v):
     """element list of an array-like value: descends single-field records and std::array aggregates"""
     for _ in range(8):
+        if isinstance(v, tuple) and v and v[0] == "new" and v[2] == "agg" and v[1].endswith("]"):
+            return list(v[3])       # a built-in array aggregate
+        if isinstance(v, tuple) and v and v[0] == "new" and v[2] == "agg" and len(v[3]) == 1 and isinstance(v[3][0], tuple) and v[3][0] \
+                and v[3][0][0] == "new" and v[3][0][2] == "agg" and v[3][0][1].endswith("]"):
+            return list(v[3][0][3])
         if isinstance(v, tuple) and v and v[0] == "rec" and len(v[2]) == 1:
             v = v[2][0][1]
             continue
